@@ -130,24 +130,58 @@ def nontrivial_key(rec):
                        scn["stopAt"], scn["errAt"], scn["faultAt"], rec["reads"]], sort_keys=True)
 
 
+BATCH = 60000
+
+
 def explore(chk, cfgname, workers=12, timeout=900, variants=("as_is",), simulate=None, depth=None,
             extra_judge=None, want=None):
-    """Run TLC with the given cfg of MCSearcher, replay every emitted scenario."""
+    """Run TLC with the given cfg of MCSearcher, replay every emitted scenario.
+
+    TLC's output is streamed to a file and processed in batches, so that tiers with millions of scenarios do not have
+    to fit into memory.  Returns (summary, None, None): `summary` holds every record on which the model's own sanity
+    invariant failed plus the first record of every distinct input (what the callers look at afterwards)."""
     res = vlib.tlc("search/MCSearcher", cfgname, workers=workers, timeout=timeout,
-                   simulate=simulate, depth=depth, tlc_seed=(vlib.seed() if simulate else None))
-    if res.rc != 0:
-        raise vlib.ToolError("model sanity invariant failed in %s:\n%s" % (cfgname, res.tail(60)))
-    chk.add_tlc(res)
-    recs = res.emits()
-    if want:
-        recs = [r for r in recs if want(r)]
-    vlib.log("[%s] %s: %d states, %d scenarios emitted in %.1fs" % (chk.pid, cfgname, res.distinct, len(recs), res.wall))
-    design_bad = [r for r in recs if not r["ok"]]
-    # envelope for history-dependent scenarios (binary detection): every stream the model allows
-    allowed = {}
+                   simulate=simulate, depth=depth, tlc_seed=(vlib.seed() if simulate else None), stream=True)
+    try:
+        if res.rc != 0:
+            raise vlib.ToolError("model sanity invariant failed in %s:\n%s" % (cfgname, res.tail(60)))
+        chk.add_tlc(res)
+        # pass 1 - envelope for history-dependent scenarios (binary detection): every stream the model allows
+        allowed = {}
+        for r in res.iter_emits(raw_filter=lambda raw: '\\"bin\\":\\"none\\"' not in raw):
+            if r["scn"]["bin"] != "none" and (not want or want(r)):
+                allowed.setdefault(scn_key(r["scn"]), set()).add(stream_key(r["out"], r["result"]))
+        # pass 2 - replay in batches
+        state = {"n": 0, "design_bad": 0, "conf_mismatch": 0, "summary": [], "inputs": set()}
+        batch = []
+        for r in res.iter_emits():
+            if want and not want(r):
+                continue
+            batch.append(r)
+            if len(batch) >= BATCH:
+                _replay_batch(chk, batch, variants, allowed, extra_judge, timeout, state)
+                batch = []
+        if batch:
+            _replay_batch(chk, batch, variants, allowed, extra_judge, timeout, state)
+    finally:
+        res.discard()
+    vlib.log("[%s] %s: %d states, %d scenarios emitted in %.1fs" % (chk.pid, cfgname, res.distinct, state["n"], res.wall))
+    chk.extra["design_counterexamples"] = chk.extra.get("design_counterexamples", 0) + state["design_bad"]
+    chk.extra["conformance_mismatches_property_ok"] = chk.extra.get("conformance_mismatches_property_ok", 0) + state["conf_mismatch"]
+    return state["summary"], None, None
+
+
+def _replay_batch(chk, recs, variants, allowed, extra_judge, timeout, state):
+    state["n"] += len(recs)
     for r in recs:
-        if r["scn"]["bin"] != "none":
-            allowed.setdefault(scn_key(r["scn"]), set()).add(stream_key(r["out"], r["result"]))
+        key = bytes(r["scn"]["inp"])
+        if not r["ok"]:
+            state["design_bad"] += 1
+            if len(state["summary"]) < 5000:
+                state["summary"].append(r)
+        elif key not in state["inputs"] and len(state["inputs"]) < 20000:
+            state["inputs"].add(key)
+            state["summary"].append(r)
     # build the replay list
     jobs = []
     for i, r in enumerate(recs):
@@ -182,7 +216,6 @@ def explore(chk, cfgname, workers=12, timeout=900, variants=("as_is",), simulate
             jobs.append(j)
     obs = vlib.run_driver("replay_search", jobs, parallel=12, timeout=timeout)
     chk.evaluations += len(jobs)
-    conf_mismatch = 0
     for j, o in zip(jobs, obs):
         r = recs[j["_i"]]
         why = judge(dict(r, scn=j["scn"]), o)
@@ -204,19 +237,12 @@ def explore(chk, cfgname, workers=12, timeout=900, variants=("as_is",), simulate
             mo = [ev_key(e) for e in r["out"]]
             oo = [ev_key(e) for e in o["out"]]
             if mo != oo or r["result"] != o["result"]:
-                conf_mismatch += 1
+                state["conf_mismatch"] += 1
         k = nontrivial_key(r)
         if k:
             chk.nontrivial_case(k)
         if len(chk.samples) < 3 and k and i_interesting(r):
             chk.sample({"scenario": r["scn"], "reads": r["reads"], "observed": o["out"]})
-    # design counterexamples that the real code does not reproduce are model drift
-    drift = 0
-    for r in design_bad:
-        drift += 1
-    chk.extra["design_counterexamples"] = chk.extra.get("design_counterexamples", 0) + len(design_bad)
-    chk.extra["conformance_mismatches_property_ok"] = chk.extra.get("conformance_mismatches_property_ok", 0) + conf_mismatch
-    return recs, jobs, obs
 
 
 def i_interesting(r):
